@@ -1027,23 +1027,48 @@ def assembly_match_to_date(fn, b, consts, owner, idx):
     return out
 
 
-def helper_modulus(idx, owner, fn, var_binding):
-    """if the local bound to a generate_dates argument is decoded through a parser helper of the shape
-    `if T[s] > K: return T[s] % K; return T[s]`, return K (the Chinese parser folds lunar aliases this way)"""
+def decode_table(idx, W, owner, fn, var_binding, cfg, table_prop, consts):
+    """if the local bound to a generate_dates argument is decoded through a helper of the parser itself
+    (ChineseDateParser.get_month_of_year / get_day_of_month fold lunar aliases), interpret the helper over every key of
+    the wired table: {key: decoded value}, helper name; (None, None) when the table is read directly"""
+    from .c08 import MiniEval, Undetermined      # late import: c08 builds on this module
     tv = Taint(fn, 'reference')
     for v, g, ln in tv.assigns.get(var_binding.id, []):
         if isinstance(v, ast.Call) and isinstance(v.func, ast.Attribute) and _is_name(v.func.value, 'self'):
             k, h = idx.find_method(owner, v.func.attr)
             if h is None:
                 raise AnalysisError('%s: helper %s not found' % (fn.name, v.func.attr))
-            mods = {n.right.value for n in ast.walk(h) if isinstance(n, ast.BinOp) and isinstance(n.op, ast.Mod)
-                    and isinstance(n.right, ast.Constant)}
-            gts = {n.comparators[0].value for n in ast.walk(h) if isinstance(n, ast.Compare) and len(n.ops) == 1
-                   and isinstance(n.ops[0], ast.Gt) and isinstance(n.comparators[0], ast.Constant)}
-            if len(mods) == 1 and mods == gts:
-                return next(iter(mods))
-            raise AnalysisError('%s.%s: decoding helper shape not recognised' % (owner.name, v.func.attr))
-    return None
+            table = W.table(cfg, table_prop).value
+
+            def res(node):
+                txt = ast.unparse(node)
+                if txt.startswith('self.config.'):
+                    try:
+                        vals = W.resolve(cfg, node.attr)
+                    except AnalysisError as e:
+                        raise Undetermined(str(e))
+                    if len(vals) == 1:
+                        return vals[0].value
+                if isinstance(node, ast.Attribute) and isinstance(node.value, ast.Name):
+                    if node.value.id == 'Constants' and node.attr in consts:
+                        return consts[node.attr]
+                    if node.value.id == 'self':
+                        o, init, expr = W.slot_assign(owner, node.attr)
+                        if expr is not None:
+                            try:
+                                return ast.literal_eval(expr)
+                            except Exception:
+                                pass
+                raise Undetermined('attribute %s' % txt[:40])
+
+            out = {}
+            for key in table:
+                try:
+                    out[key] = MiniEval(idx, owner, res).call(h, [key])
+                except Undetermined as e:
+                    raise AnalysisError('%s.%s cannot be interpreted on key %r: %s' % (owner.name, v.func.attr, key, e))
+            return out, '%s.%s' % (k.name, v.func.attr)
+    return None, None
 
 
 def month_abbreviates(culture, w):
@@ -1163,6 +1188,8 @@ def run(chk):
     chk.rule('C06.numeric', 'numeric month/day keys map to themselves; table values stay in range', floor=300, control=True)
     chk.rule('C06.capturable', 'month spellings a wired date regex captures are keys of the month table', floor=150,
              control=True)
+    chk.rule('C06.fold', 'parser-side folding helpers map table values 1..K to themselves and lunar aliases to value-K (tabulated)',
+             floor=40, control=True)
     chk.rule('C06.taint', '`reference` influences the date only under the no-year condition', floor=6, control=True)
     chk.rule('C06.assembly', '(year, month, day) reach datetime(...) and the TIMEX in order, from the right tables',
              floor=20, control=True)
@@ -1222,6 +1249,9 @@ def run(chk):
     chk.control('C06.month', bool(lexicon_problems({'march': 4, 'april': 4}, {'march': 3, 'april': 4})))
     chk.control('C06.weekday', bool(lexicon_problems({'monday': 2}, {'monday': 1})))
     chk.control('C06.numeric', bool(numeric_problems({'1': 2}, ['1'])))
+    from .c08 import MiniEval as _ME
+    _ctl = ast.parse("def get_day_of_month(self, day):\n    return day % 31 if day >= 31 else day\n").body[0]
+    chk.control('C06.fold', _ME(idx).call(_ctl, [31]) != 31)
 
     # ---- per culture
     capt_control = False
@@ -1230,16 +1260,32 @@ def run(chk):
         chk.consulted(cfg.mod.path)
         p, fn, k = parsers[cul]
         _, _, b = taint_match_to_date(fn, gd_params)
-        mmod = helper_modulus(idx, p, fn, b['month'])
-        dmod = helper_modulus(idx, p, fn, b['day'])
-        mnorm = (lambda v, K=mmod: v % K if v > K else v) if mmod else (lambda v: v)
-        dnorm = (lambda v, K=dmod: v % K if v > K else v) if dmod else (lambda v: v)
-        if mmod not in (None, 12) or dmod not in (None, 31):
-            raise AnalysisError('%s: decoding helpers fold by %s / %s, expected 12 / 31' % (p.name, mmod, dmod))
+        mdec, mhelper = decode_table(idx, W, p, fn, b['month'], cfg, 'month_of_year', consts)
+        ddec, dhelper = decode_table(idx, W, p, fn, b['day'], cfg, 'day_of_month', consts)
         moy = W.table(cfg, 'month_of_year')
         dom = W.table(cfg, 'day_of_month')
         dow = W.table(cfg, 'day_of_week')
         regs = DateRegexes(W, cfg)
+        # decoded value of a table value: through the parser's folding helper when there is one
+        mmap = {v2: mdec[k2] for k2, v2 in moy.value.items()} if mdec is not None else None
+        dmap = {v2: ddec[k2] for k2, v2 in dom.value.items()} if ddec is not None else None
+        mnorm = (lambda v, M=mmap: M.get(v, v)) if mmap is not None else (lambda v: v)
+        dnorm = (lambda v, M=dmap: M.get(v, v)) if dmap is not None else (lambda v: v)
+        for dec, helper, tab, K, what in ((mdec, mhelper, moy, 12, 'month'), (ddec, dhelper, dom, 31, 'day')):
+            if dec is None:
+                continue
+            by_val = {}
+            for k2, v2 in tab.value.items():
+                by_val.setdefault(v2, set()).add(dec[k2])
+            for v2 in sorted(by_val, key=lambda x: (not isinstance(x, int), x)):
+                got = sorted(by_val[v2], key=str)
+                want = v2 if isinstance(v2, int) and 1 <= v2 <= K else (v2 - K if isinstance(v2, int) and K < v2 <= 2 * K else None)
+                chk.judge(want is not None and got == [want], 'C06.fold', k.mod.path, '%s(%s)' % (helper, v2),
+                          '%s -> %s' % (v2, got if len(got) != 1 else got[0]),
+                          '%s decodes the %s table value %r (e.g. key %r) to %s; expected %s - %s'
+                          % (helper, what, v2, next(k3 for k3, v3 in tab.value.items() if v3 == v2), got if len(got) != 1 else got[0],
+                             want, 'values 1..%d map to themselves, lunar aliases %d..%d fold to value-%d, nothing maps to 0' % (K, K + 1, 2 * K, K)),
+                          idx.find_method(p, helper.split('.')[1])[1].lineno)
         for t, v in (('month_of_year', moy), ('day_of_month', dom), ('day_of_week', dow)):
             chk.ok('C06.wiring', cfg.mod.path, '%s.%s' % (cfg.name, t), '%s [%d keys]' % (v.label, len(v.value)))
             for part in (v.parts if isinstance(v, MergedVal) else [v]):
